@@ -43,6 +43,7 @@ type entryReport struct {
 	Funcs   []string
 	Native  *nativeReport
 	Params  map[string]int
+	Solver  SolverKind
 }
 
 func cmdCheck(args []string) int {
@@ -129,9 +130,10 @@ func cmdCheck(args []string) int {
 				params[k] = v
 			}
 			cfg := Config{Workers: *workers, MaxDepth: 400, MaxSteps: 5_000_000, MaxPaths: 2_000_000, MaxConcretize: 64,
-				FeasTimeoutMs: 10_000, AssertTimeoutMs: 120_000, Params: params, Solver: SolverZ3, Witnesses: 6, StopOnViolation: true}
+				FeasTimeoutMs: 10_000, IncTimeoutMs: 1000, AssertTimeoutMs: 120_000, Params: params, Solver: SolverZ3New, Witnesses: 6, StopOnViolation: true, Progress: *verbose, WallBudget: 20 * time.Minute}
 			if *tier == "thorough" {
 				cfg.Witnesses = 12
+				cfg.WallBudget = 6 * time.Hour
 				cfg.AssertTimeoutMs = 600_000
 			}
 			if v, ok := params["maxdepth"]; ok {
@@ -184,12 +186,12 @@ func cmdCheck(args []string) int {
 				}
 				eng.evalMismatch = 0
 				rr := eng.explore(fn, h.ExpectBlock[en])
-				rep := &entryReport{Harness: filepath.Base(h.Path), Entry: en, RR: rr, Funcs: eng.funcList(rr.Funcs), Params: params}
+				rep := &entryReport{Harness: filepath.Base(h.Path), Entry: en, RR: rr, Funcs: eng.funcList(rr.Funcs), Params: params, Solver: cfg.Solver}
 				reports = append(reports, rep)
 				groupReports = append(groupReports, rep)
 				if *verbose {
-					fmt.Fprintf(os.Stderr, "%s/%s: paths=%d completed=%d forks=%d viol=%d incon=%d q(feas=%d assert=%d sat=%d unsat=%d unk=%d cache=%d) solver=%s wall=%s\n",
-						rep.Harness, en, rr.Paths, rr.Completed, rr.Forks, len(rr.Violations), len(rr.Inconclusive), rr.QFeas, rr.QAssert, rr.QSat, rr.QUnsat, rr.QUnknown, rr.CacheHits, rr.SolverTime.Round(time.Millisecond), rr.Wall.Round(time.Millisecond))
+					fmt.Fprintf(os.Stderr, "%s/%s: paths=%d completed=%d forks=%d viol=%d incon=%d q(feas=%d assert=%d sat=%d unsat=%d unk=%d cache=%d syn=%d oneshot=%d) solver=%s wall=%s\n",
+						rep.Harness, en, rr.Paths, rr.Completed, rr.Forks, len(rr.Violations), len(rr.Inconclusive), rr.QFeas, rr.QAssert, rr.QSat, rr.QUnsat, rr.QUnknown, rr.CacheHits, rr.SynHits, rr.OneShot, rr.SolverTime.Round(time.Millisecond), rr.Wall.Round(time.Millisecond))
 					for _, s := range rr.Inconclusive {
 						fmt.Fprintln(os.Stderr, "   inconclusive:", s)
 					}
@@ -270,6 +272,8 @@ func verdict(prop, tier string, seed int, reports []*entryReport, broken []strin
 		queries["unsat"] += rr.QUnsat
 		queries["unknown"] += rr.QUnknown
 		queries["answered_from_model_cache"] += rr.CacheHits
+		queries["answered_syntactically_from_path_condition"] += rr.SynHits
+		queries["escalated_to_one_shot_solving"] += rr.OneShot
 		for _, f := range r.Funcs {
 			funcs[f] = true
 		}
@@ -401,7 +405,7 @@ func verdict(prop, tier string, seed int, reports []*entryReport, broken []strin
 				"obligations": obligations, "discharged": discharged,
 				"functions_encoded": sortedKeys(funcs), "functions_encoded_count": len(funcs),
 				"stubs_and_models": sortedKeys(stubs), "bounds": bounds, "queries": queries,
-				"solver_time_s": solverTime.Seconds(), "solvers": []string{"z3 4.8.12 (-in, incremental)"},
+				"solver_time_s": solverTime.Seconds(), "solvers": solversUsed(reports),
 				"reach_labels": reach, "entries": entriesOut,
 				"differential_agreements": fmt.Sprintf("%d/%d", diffAgree, diffTotal),
 				"status": status, "inconclusive_reasons": incon, "known_findings_reported": knownLines,
@@ -458,6 +462,19 @@ func (r *entryReport) expectedReach(verif, prop string) []string {
 			if len(f) > 1 && f[0] == r.Entry {
 				out = append(out, f[1:]...)
 			}
+		}
+	}
+	return out
+}
+
+func solversUsed(reports []*entryReport) []string {
+	seen := map[string]bool{}
+	var out []string
+	for _, r := range reports {
+		s := string(r.Solver)
+		if !seen[s] {
+			seen[s] = true
+			out = append(out, s+" (persistent process, push/pop)")
 		}
 	}
 	return out
